@@ -167,7 +167,7 @@ CHECKS = {
          "the loader must put the value of every key of a molecule document (attribute, extra, pass-through) and which omissions "
          "are errors or warnings, and TLC validates the placement observed for every generated key subset. CubeData.tla gives the "
          "data block of a cube file as a stream cut freely into lines and the reader's refill/take word cursor as a machine "
-         "(model-checked: InOrder, NoStarve, Complete); every (shape, cut) of streams of <=6 (thorough <=8) numbers is exported, "
+         "(model-checked: InOrder, NoStarve, Complete); every (shape, cut) of streams of <=6 (thorough <=9) numbers is exported, "
          "rendered, loaded, and TLC validates the stream position found on every cell.",
     note="the program-output renderers are transcriptions of sample outputs (no published column specification); WFN has no rendered counterpart here (C01 compares corpus WFN/WFX/FCHK files with independent readers); molden/molekel are rendered in C05",
     technique="TLA+ layout tables (Layouts.tla) exported by TLC drive an independent writer; TLC validates relation descriptors of loaded objects"),
